@@ -44,3 +44,39 @@ Proof. exact run_lines_all_ineffective. Qed.
 Check C18_junk_connection : forall o now ls s s',
   (forall l, In l ls -> effective o l = false) -> run_lines o now s ls = Ok s' -> s' = s.
 Print Assumptions C18_junk_connection.
+
+(** ---- the loop with its retry pauses ---- *)
+From SQ Require Import Base Table Display TcpLoop.
+
+
+(** for every sequence of connection attempts -- refused, closed by the peer, reset in the middle of a line, junk -- the loop (with its pauses) never panics or terminates *)
+Theorem C18_loop_never_stops : forall (o : opts) (now : Z) (evs : list conn_event) (t : table), exists (t' : table) (ps : list N), run_tcp_loop o now t evs = Ok (t', ps).
+Proof. exact tcp_loop_total. Qed.
+Check C18_loop_never_stops : forall (o : opts) (now : Z) (evs : list conn_event) (t : table), exists (t' : table) (ps : list N), run_tcp_loop o now t evs = Ok (t', ps).
+Print Assumptions C18_loop_never_stops.
+
+(** the table at the end is the fold of read_lines over the byte strings that were delivered: refused attempts and pauses do not touch it, a reset keeps everything read before it *)
+Theorem C18_loop_table : forall (o : opts) (now : Z) (evs : list conn_event) (t t' : table) (ps : list N), run_tcp_loop o now t evs = Ok (t', ps) -> run_tcp_table o now t (List.concat (map delivered evs)) = Ok t'.
+Proof. exact tcp_loop_table. Qed.
+Check C18_loop_table : forall (o : opts) (now : Z) (evs : list conn_event) (t t' : table) (ps : list N), run_tcp_loop o now t evs = Ok (t', ps) -> run_tcp_table o now t (List.concat (map delivered evs)) = Ok t'.
+Print Assumptions C18_loop_table.
+
+(** one pause per attempt: 5 s after every failed attempt (refused, or ended by a read error), none after a connection the peer closed cleanly *)
+Theorem C18_retry_schedule : forall (o : opts) (now : Z) (evs : list conn_event) (t t' : table) (ps : list N), run_tcp_loop o now t evs = Ok (t', ps) -> ps = map (fun e : conn_event => if failed e then 5 else 0) evs.
+Proof. exact tcp_loop_pauses. Qed.
+Check C18_retry_schedule : forall (o : opts) (now : Z) (evs : list conn_event) (t t' : table) (ps : list N), run_tcp_loop o now t evs = Ok (t', ps) -> ps = map (fun e : conn_event => if failed e then 5 else 0) evs.
+Print Assumptions C18_retry_schedule.
+
+(** every failed attempt is followed by a 5 s pause *)
+Theorem C18_retry_after_failure : forall (o : opts) (now : Z) (evs : list conn_event) (t t' : table) (ps : list N) (k : nat) (e : conn_event), run_tcp_loop o now t evs = Ok (t', ps) -> nth_error evs k = Some e -> failed e = true -> nth_error ps k = Some 5.
+Proof. exact tcp_retry_after_failure. Qed.
+Check C18_retry_after_failure : forall (o : opts) (now : Z) (evs : list conn_event) (t t' : table) (ps : list N) (k : nat) (e : conn_event), run_tcp_loop o now t evs = Ok (t', ps) -> nth_error evs k = Some e -> failed e = true -> nth_error ps k = Some 5.
+Print Assumptions C18_retry_after_failure.
+
+(** a healthy connection after any sequence of faults is decoded into the table kept so far *)
+Theorem C18_resumes : forall (o : opts) (now : Z) (faults : list conn_event) (bs : list N) (t : table), exists (t1 t2 : table) (ps : list N), run_tcp_loop o now t faults = Ok (t1, ps) /\ read_lines o now t1 bs = Ok t2 /\ run_tcp_loop o now t (faults ++ [Delivered bs true]) = Ok (t2, ps ++ [0]).
+Proof. exact tcp_resumes. Qed.
+Check C18_resumes : forall (o : opts) (now : Z) (faults : list conn_event) (bs : list N) (t : table), exists (t1 t2 : table) (ps : list N), run_tcp_loop o now t faults = Ok (t1, ps) /\ read_lines o now t1 bs = Ok t2 /\ run_tcp_loop o now t (faults ++ [Delivered bs true]) = Ok (t2, ps ++ [0]).
+Print Assumptions C18_resumes.
+
+
